@@ -13,6 +13,7 @@ from __future__ import annotations
 
 import datetime as dt
 import json
+import math
 import warnings
 from collections.abc import Mapping, Sequence
 from os import PathLike
@@ -1048,6 +1049,11 @@ def _conform_time(time: int | float | str | dt.datetime, col_type: pa.DataType):
             # drop the nanoseconds of a pandas timestamp
             return pa.scalar(time.to_datetime64())
     elif isinstance(time, dt.datetime):
-        return time.timestamp()
+        time = time.timestamp()
+
+    if pa.types.is_integer(col_type) and isinstance(time, float) and abs(time) < 2**63:
+        # for integer times t, t < x iff t < ceil(x) and t >= x iff t >= ceil(x); comparing
+        # through doubles is inexact beyond 2**53 (and Arrow refuses to do it)
+        return math.ceil(time)
 
     return time
